@@ -135,18 +135,54 @@ func runC46(c *Ctx) {
 	if f := c.SSAFunc(rel, "MessageAuthenticator.verifyKESSignature"); f != nil {
 		fk := ssaFuncKey(f)
 		var vcall *ssa.Call
-		for _, ci := range allCalls(f) {
-			cc := ci.Common()
-			if !cc.IsInvoke() && cc.StaticCallee() == nil && strings.HasPrefix(trace(cc.Value), "assert<Load(kesVerifier<p0)") {
-				vcall, _ = ci.(*ssa.Call)
+		top := f
+		for _, g := range closureFuncs(top, 2) {
+			for _, ci := range allCalls(g) {
+				cc := ci.Common()
+				if !cc.IsInvoke() && cc.StaticCallee() == nil && strings.HasPrefix(traceIP(top, cc.Value), "assert<Load(kesVerifier<p0)") {
+					vcall, _ = ci.(*ssa.Call)
+				}
 			}
+		}
+		if vcall != nil && vcall.Parent() != top {
+			// the verifier runs in a helper: verifyKESSignature must hand the helper's verdict back unchanged, and
+			// may itself accept only in explicit insecure mode; the acceptance rules below then apply to the helper
+			g := vcall.Parent()
+			delegated := false
+			for _, ci := range allCalls(top) {
+				if ci.Common().StaticCallee() != g || ci.Value() == nil {
+					continue
+				}
+				for _, in := range fnInstrs(top) {
+					if r, ok := in.(*ssa.Return); ok && returnedValue(r, 0) == ssa.Value(ci.Value()) {
+						delegated = true
+					}
+				}
+			}
+			if !delegated {
+				c.Undecided("%s: the helper running the KES verifier is not returned directly", fk)
+			}
+			var own []ssa.Instruction
+			for _, b := range top.Blocks {
+				if r, ok := b.Instrs[len(b.Instrs)-1].(*ssa.Return); ok && isNilConst(returnedValue(r, 0)) {
+					own = append(own, r)
+				}
+			}
+			okOwn := true
+			for _, v := range c.mustPass(top, own, func(fact string) bool {
+				return strings.HasPrefix(fact, "T:call:sync/atomic.(*Bool).Load(") && strings.HasSuffix(fact, ".allowInsecureKES)")
+			}) {
+				okOwn = okOwn && v.OK
+			}
+			c.Check(okOwn, "kes-verified-or-explicit-bypass", fk+":accepts-own", top.Pos(), "outside the verifier helper, acceptance needs explicit insecure mode", "verifyKESSignature can accept without the verifier having run and without insecure mode being enabled")
+			f = g
 		}
 		if vcall == nil {
 			c.Bad("kes-verified-or-explicit-bypass", fk, f.Pos(), "the injected KES verifier is never called")
 		} else {
 			var as []string
 			for _, a := range vcall.Call.Args {
-				as = append(as, trace(a))
+				as = append(as, traceIP(top, a))
 			}
 			okArgs := len(as) == 6 && as[0] == "Encode(Encode(Payload<p1)#0)#0" && as[1] == "KESSignature<p1" && as[2] == "KESVerificationKey<OperationalCertificate<p1" && as[3] == "KESPeriod<Payload<p1" && as[5] == "slotsPerKesPeriod<p0"
 			c.Check(okArgs, "kes-verified-or-explicit-bypass", fk+":args", vcall.Pos(), "verifier(bstr(payload cbor), signature, certificate KES key, payload KES period, slot, slots per period)", "the KES verifier is called with "+shortArg(strings.Join(as, ", ")))
@@ -262,19 +298,30 @@ func runC46(c *Ctx) {
 			c.Check(trace(mu.Key) == "p1" && trace(lk.Index) == "p1" && trace(mu.Value) == "IssueNumber<p2", "counter-check-and-update-atomic", fk+":same-pool", mu.Pos(), "the certificate's counter is stored under the pool it was checked for", "the counter is stored under "+shortArg(trace(mu.Key))+" = "+shortArg(trace(mu.Value)))
 			// update only when not (exists && lower)
 			var lowerFrom *ssa.BasicBlock
+			lowerSucc := 0
 			for _, b := range f.Blocks {
 				iff, ok := b.Instrs[len(b.Instrs)-1].(*ssa.If)
 				if !ok {
 					continue
 				}
-				if bo, ok := iff.Cond.(*ssa.BinOp); ok && bo.Op == token.LSS && trace(bo.X) == "IssueNumber<p2" && strings.HasPrefix(trace(bo.Y), "lookup(kesOpCertCache<p0,p1)#0") {
-					lowerFrom = b
+				bo, ok := iff.Cond.(*ssa.BinOp)
+				if !ok {
+					continue
+				}
+				isIssue := func(v ssa.Value) bool { return trace(v) == "IssueNumber<p2" }
+				isStored := func(v ssa.Value) bool { return strings.HasPrefix(trace(v), "lookup(kesOpCertCache<p0,p1)#0") }
+				// the edge on which issue < stored holds, whichever way the comparison is written
+				switch {
+				case isIssue(bo.X) && isStored(bo.Y) && bo.Op == token.LSS, isStored(bo.X) && isIssue(bo.Y) && bo.Op == token.GTR:
+					lowerFrom, lowerSucc = b, 0
+				case isIssue(bo.X) && isStored(bo.Y) && bo.Op == token.GEQ, isStored(bo.X) && isIssue(bo.Y) && bo.Op == token.LEQ:
+					lowerFrom, lowerSucc = b, 1
 				}
 			}
 			okRej := false
 			if lowerFrom != nil {
 				// the "lower" edge cannot reach the update nor success
-				after := reachFromAvoiding([]*ssa.BasicBlock{lowerFrom}, func(from *ssa.BasicBlock, s int) bool { return from == lowerFrom && s != 0 })
+				after := reachFromAvoiding([]*ssa.BasicBlock{lowerFrom}, func(from *ssa.BasicBlock, s int) bool { return from == lowerFrom && s != lowerSucc })
 				okRej = !after[mu.Block()]
 				for _, r := range successReturns(f) {
 					if after[r.Block()] {
